@@ -240,6 +240,120 @@ theorem stop_continue_change_no_result (c : Cfg) (u : U) (r : Req) (hr : r = .st
       u'.sw.active = u.sw.active ∧ u'.is.remaining = u.is.remaining ∧ u'.gs.remaining = u.gs.remaining ∧ u'.ds.remaining = u.ds.remaining := by
   rcases hr with rfl | rfl <;> cases hph : u.phase <;> simp only [onReq, hph] <;> (try split) <;> (try split) <;> simp [hph]
 
+/-! ## Stop/continue leave no trace: erasing a stop … continue pair from a unit's history changes nothing else -/
+
+/-- `run` over a concatenation -/
+theorem run_append (c : Cfg) : ∀ (es fs : List Ev) (u : U),
+    run c u (es ++ fs) = ((run c (run c u es).1 fs).1, (run c u es).2 ++ (run c (run c u es).1 fs).2) := by
+  intro es
+  induction es with
+  | nil => intro fs u; simp [run]
+  | cons e es ih =>
+    intro fs u
+    simp only [List.cons_append, run, ih, List.append_assoc]
+
+/-- nothing is paused, and the unit is in a phase whose clocks all belong to it: the main loop, a retry delay, the draining of
+    leaked handles, a termination for a timeout (for a termination caused by a shutdown signal the slow-timeout interval is
+    not among the clocks `terminate_child` pauses — see the remark below) -/
+def Quiescent (u : U) : Prop :=
+  match u.phase with
+  | .running => u.sw.paused = false ∧ u.is.paused = false
+  | .terminating _ => u.timedOut = true ∧ u.sw.paused = false ∧ u.gs.paused = false ∧ u.ws.paused = false
+  | .draining => u.sw.paused = false ∧ u.lsPaused = false
+  | .delay => u.ds.paused = false ∧ u.ws.paused = false
+  | .done => True
+
+/-- what the unit does for the stop … continue pair itself -/
+def bubbleActs (u : U) : List Act :=
+  match u.phase with
+  | .running => [.kill .tstp, .ack, .kill .cont]
+  | .terminating _ => [.kill .tstp, .ack, .kill .cont]
+  | .draining => [.ack]
+  | .delay => [.ack]
+  | .done => []
+
+private theorem watch_eta (w : Watch) (h : w.paused = false) : ({ w with paused := false } : Watch) = w := by
+  cases w; simp_all
+private theorem timer_eta (t : Timer) (h : t.paused = false) : ({ t with paused := false } : Timer) = t := by
+  cases t; simp_all
+
+/-- while stopped, time leaves the unit untouched and nothing happens -/
+private theorem stopped_time (c : Cfg) (u : U) (hq : Quiescent u) : ∀ (ds : List Nat),
+    run c (onReq c u .stop).1 (ds.map Ev.time) = ((onReq c u .stop).1, []) := by
+  intro ds
+  induction ds with
+  | nil => rfl
+  | cons d ds ih =>
+    have hstep : step c (onReq c u .stop).1 (.time d) = ((onReq c u .stop).1, []) := by
+      cases hph : u.phase with
+      | running =>
+        simp only [Quiescent, hph] at hq
+        by_cases hto : u.timedOut = true <;>
+          simp [step, advance, nextDue, onReq, hph, Timer.due, elapse, Watch.tick, Timer.tick, hto]
+      | terminating w =>
+        simp only [Quiescent, hph] at hq
+        simp [step, advance, nextDue, onReq, hph, hq.1, hq.2.1, hq.2.2.1, hq.2.2.2, Timer.due, elapse, Watch.tick, Timer.tick]
+      | draining => simp [step, advance, nextDue, onReq, hph, elapse, Watch.tick]
+      | delay =>
+        simp only [Quiescent, hph] at hq
+        simp [step, advance, nextDue, onReq, hph, hq.1, hq.2, Timer.due, elapse, Watch.tick, Timer.tick]
+      | done => simp [step, advance, nextDue, onReq, hph, elapse]
+    simp only [List.map_cons, run, hstep, ih, List.nil_append]
+
+/-- **A stop … continue pair leaves no trace**: from a state in which nothing is paused, being stopped, any amount of time
+    passing in any number of pieces, and being continued brings the unit back to exactly the state it was in — every clock,
+    counter and flag — having done nothing but forward the two job-control signals and acknowledge the stop -/
+theorem stop_bubble_erased (c : Cfg) (u : U) (ds : List Nat) (hq : Quiescent u) :
+    run c u (.req .stop :: (ds.map Ev.time ++ [.req .cont])) = (u, bubbleActs u) := by
+  have ht := stopped_time c u hq ds
+  simp only [run, step, run_append, ht, List.nil_append, List.append_nil]
+  cases hph : u.phase with
+  | running =>
+    simp only [Quiescent, hph] at hq
+    simp only [onReq, hph, bubbleActs, if_true]
+    have e1 := watch_eta u.sw hq.1
+    have e2 := timer_eta u.is hq.2
+    simp [e1, e2]
+    cases u; simp_all
+  | terminating w =>
+    simp only [Quiescent, hph] at hq
+    simp only [onReq, hph, bubbleActs, hq.2.1, hq.2.2.1, hq.2.2.2, Bool.or_self, Bool.false_eq_true, if_false]
+    have e1 := watch_eta u.sw hq.2.1
+    have e2 := timer_eta u.gs hq.2.2.1
+    have e3 := watch_eta u.ws hq.2.2.2
+    simp [e1, e2, e3]
+    cases u; simp_all
+  | draining =>
+    simp only [Quiescent, hph] at hq
+    simp only [onReq, hph, bubbleActs]
+    have e1 := watch_eta u.sw hq.1
+    simp [e1, hq.2]
+    cases u; simp_all
+  | delay =>
+    simp only [Quiescent, hph] at hq
+    simp only [onReq, hph, bubbleActs, hq.1, hq.2, Bool.or_self, Bool.false_eq_true, if_false, if_true, Bool.not_true]
+    have e1 := timer_eta u.ds hq.1
+    have e2 := watch_eta u.ws hq.2
+    simp [e1, e2]
+    cases u; simp_all
+  | done => simp [onReq, hph, bubbleActs]
+
+/-- **… hence the run proceeds to the results it would otherwise have produced**: inserting a stop … continue pair (with any
+    passage of time in between) anywhere in a unit's history where nothing is paused changes neither the final state — result,
+    time-out and slow marks, counted periods, leak verdict, reported duration, every timer — nor any action other than the
+    pair's own job-control signals and acknowledgement -/
+theorem results_unchanged (c : Cfg) (u : U) (pre post : List Ev) (ds : List Nat) (hq : Quiescent (run c u pre).1) :
+    run c u (pre ++ (.req .stop :: (ds.map Ev.time ++ [.req .cont])) ++ post) =
+      ((run c u (pre ++ post)).1, (run c u pre).2 ++ bubbleActs (run c u pre).1 ++ (run c (run c u pre).1 post).2) := by
+  rw [List.append_assoc, run_append, run_append c _ post, stop_bubble_erased c _ ds hq, run_append c pre post]
+  simp only [List.append_assoc]
+
+-- the excluded corner: a termination caused by a shutdown signal pauses the stopwatch, the grace timer and the waiting stopwatch
+-- but not the slow-timeout interval (it is not an argument of `terminate_child`), so a stop during such a termination lets
+-- the interval run on; it can only matter for a unit the run has already given up on
+example : let c : Cfg := { period := 1000, terminateAfter := none, grace := 500, leak := 100 }
+    (run c (U.spawn c) [.req (.shutdown (.once .interrupt)), .req .stop, .time 300, .req .cont]).1.is.remaining = 700 := by decide
+
 open NextestModel.Dispatcher in
 /-- **The dispatcher debounces stop and continue**: a Stop is acted on (RunPaused, broadcast, nextest
     stops itself) only when not already stopped, a Continue only when stopped — so the requests units
